@@ -129,6 +129,21 @@ fn real_main(args: &[String]) -> i32 {
             for (i, h) in &agg.trace_hashes {
                 say!("{} {:016x}", i, h);
             }
+            // the real-binary engine: a few streams as well (results must not depend on the process,
+            // the worker count or where the scratch trees happen to live)
+            if let Some(bin) = simbin::bin_path() {
+                let nb = simbin::budget(&id, false).min(24);
+                if nb > 0 {
+                    let label = format!("{}-simbin", id);
+                    let pid = id.clone();
+                    let b = framework::run_streams_with(&label, &ctx, 0, nb, None, &|_i, rng, screen| {
+                        simbin::scenario(&pid, &ctx, &bin, rng, screen).unwrap_or_default()
+                    });
+                    for (i, h) in &b.trace_hashes {
+                        say!("b{} {:016x}", i, h);
+                    }
+                }
+            }
             0
         }
         "selftest" => selftest(),
